@@ -379,8 +379,8 @@ def punct (ty : TokType) (val : Bytes) (z : Z) : Token × Z :=
   let e := advance z
   mkTok ty val e e
 
-def scanInLine (C : Classes) (z0 : Z) : Token × Z :=
-  let z := skipSpaces z0
+/-- `scanInLine` behind `l.skipSpaces()`. -/
+def scanInLineAt (C : Classes) (z : Z) : Token × Z :=
   match z.after with
   | [] => mkTok .eof [] z z
   | ch :: _ =>
@@ -406,6 +406,8 @@ def scanInLine (C : Classes) (z0 : Z) : Token × Z :=
     else if isLetter ch || C.isLetter r then
       if looksLikeAccount z.after then scanAccount z else scanCommodityOrText C z
     else scanText z
+
+def scanInLine (C : Classes) (z0 : Z) : Token × Z := scanInLineAt C (skipSpaces z0)
 
 def scanLineStart (C : Classes) (z0 : Z) : Token × Z :=
   let z := { z0 with atStart := false }
